@@ -226,6 +226,18 @@ def eval_interop(case):
         # identify / needs_update of the libpass hasher
         mt = tag if maker == "passlib" else ""
         try:
+            # "exactly its own format": the same string with a line terminator / blank around it is not a hash
+            for dl, dec in (("lf", h + "\n"), ("crlf", h + "\r\n"), ("blank", h + " "), ("lead_blank", " " + h)):
+                for form, arg in (("text", dec), ("bytes", dec.encode("ascii"))):
+                    # (identify() is a shape test: a blank inside the last field is the digest's business, which
+                    #  verify() settles; a line terminator is not part of any field)
+                    if dl in ("lf", "crlf") and lp.identify(arg) is not False:
+                        out.append((f"C20|{fmt}|identify:decorated_accepted:{dl}", f"libpass {fmt} hasher identifies {arg!r} (a {maker}-made hash with {dl} added)"))
+                    try:
+                        if lp.verify(arg, p) is not False:
+                            out.append((f"C20|{fmt}|verify:decorated_accepted:{dl}", f"libpass {fmt} hasher verifies {p!r} against {arg!r} (a {maker}-made hash with {dl} added)"))
+                    except (ValueError, TypeError):
+                        pass
             if lp.identify(h) is not True:
                 out.append((f"C20|{fmt}|identify:own_format_rejected:{maker}_made{mt}", f"libpass {fmt} hasher does not identify the {maker}-made {h!r}"))
             if maker == "libpass":
